@@ -1,5 +1,4 @@
-import SciVerif.Drive.Util
+import SciVerif.Drive.C15
 open Lean SciVerif.Drive
 
-/-- C15 model driver: not built yet. -/
-def main : IO Unit := serve (fun _ => throw "C15: no model yet")
+def main : IO Unit := serve SciVerif.C15.Drive.handle
